@@ -25,6 +25,7 @@ NA = {
 }
 PENDING = 'check not built yet in this framework (see DESIGN.md section 4 for the plan); not claimed until its quick command runs end to end'
 props = [json.loads(l) for l in open('/verif/properties.jsonl')]
+DESIGN = open('/verif/DESIGN.md').read()
 checks, na = [], []
 for p in props:
     pid = p['id']
@@ -39,7 +40,7 @@ for p in props:
             'evidence_file': 'evidence/%s.json' % pid,
             'replay_cmd_template': './check %s --replay {path}' % pid,
             'engine': getattr(m, 'ENGINE', 'llsym'),
-            'level_claimed': {'category': getattr(m, 'LEVEL', 'other'), 'text': getattr(m, 'LEVEL_TEXT', m.EXPLANATION), 'design_ref': 'DESIGN.md section 4, ' + pid},
+            'level_claimed': {'category': getattr(m, 'LEVEL', 'other'), 'text': getattr(m, 'LEVEL_TEXT', m.EXPLANATION), 'design_ref': ('DESIGN.md section 4, ' + pid + ' (status: section 9)') if ('### %s ' % pid) in DESIGN else 'DESIGN.md section 9.6, ' + pid},
             'level_note': getattr(m, 'LEVEL_NOTE', '; '.join(getattr(m, 'ASSUMPTIONS', []))),
             'technique': getattr(m, 'TECHNIQUE', 'bounded symbolic execution of the real LLVM IR (own executor) with z3 deciding every obligation; counterexamples replayed natively'),
         })
